@@ -72,6 +72,34 @@ Qed.
 Lemma alt_src_eq ks : flat_map inline_as_text_src ks = flat_map inline_as_text ks.
 Proof. induction ks as [|k ks IH]; [reflexivity|]. cbn [flat_map]. rewrite inline_as_text_src_eq, IH. reflexivity. Qed.
 
+(* ---- clean_astext, generate_heading_target, update_section_level_state, render_heading, render_table ---- *)
+Lemma astext_clean_src_eq : astext_clean_src = astext_clean. Proof. reflexivity. Qed.
+Lemma heading_target_src_eq : forall C OR, heading_target_src C OR = heading_target C OR. Proof. reflexivity. Qed.
+Lemma render_heading_src_eq : forall C OR, render_heading_src C OR = render_heading C OR. Proof. reflexivity. Qed.
+Lemma render_table_src_eq : forall C OR, render_table_src C OR = render_table C OR. Proof. reflexivity. Qed.
+
+(* update_section_level_state is the semantics of the OpenSection instruction: the parent is the entry with the
+   greatest level among those the regenerated test sect_is_parent_src accepts, the new section is appended to it
+   and becomes the current node, and the level map keeps the entries the regenerated test sect_keep_src accepts *)
+Lemma open_section_src : forall level sec k s, run_i (OpenSection level sec k) s =
+  match parent_level (lvl s) level None with
+  | None => Bad (EPy Res.ValueError)
+  | Some (_, pp) =>
+      run_i k (mkI (app_at pp [sec] (tree s)) (pp ++ [nchildren pp (tree s)])
+                   (filter (fun x => sect_keep_src level (fst x))
+                           (lvl_set level (pp ++ [nchildren pp (tree s)]) (lvl s))) (fs s))
+  end.
+Proof. reflexivity. Qed.
+
+Lemma parent_level_src : forall V (x : N) (v : V) r level best, parent_level ((x, v) :: r) level best =
+  if sect_is_parent_src level x
+  then parent_level r level (match best with
+                             | Some (b, _) => if N.ltb b x then Some (x, v) else best
+                             | None => Some (x, v)
+                             end)
+  else parent_level r level best.
+Proof. reflexivity. Qed.
+
 (* ---- render_table_row (the loop over the cells; the alignment classes computed from the source's f-string) ---- *)
 Lemma render_table_cell_src_eq : render_table_cell_src = render_table_cell. Proof. reflexivity. Qed.
 Lemma render_table_row_src_eq : render_table_row_src = render_table_row. Proof. reflexivity. Qed.
@@ -128,6 +156,8 @@ Section Src.
       | KListItem => render_list_item_src C OR t ks
       | KHr => render_hr_src t ks
       | KImage => render_image_src C OR t ks
+      | KHeading => render_heading_src C OR t ks
+      | KTable => render_table_src C OR t ks
       | KMathInline => render_math_inline_src t ks
       | KMathSingle => render_math_inline_src t ks
       | _ => dispatch B C OR t ks          (* methods that are not straight-line: the hand-written transcription *)
